@@ -33,7 +33,8 @@ type hdrVariant struct {
 	dc    bool     // verdict is a don't-care
 }
 
-var c11Methods = []string{"GET", "POST", "HEAD", "PUT"}
+// methods are case-sensitive (RFC 7230 3.1.1): "get" is not GET
+var c11Methods = []string{"GET", "POST", "HEAD", "PUT", "get", "Get", "GETS", "DELETE"}
 var c11Versions = []string{"HTTP/1.1", "HTTP/1.0"}
 var c11Conn = []hdrVariant{
 	{[]string{"Upgrade"}, true, false},
